@@ -81,7 +81,9 @@ CONTRACTS = [
                       C("at_least_only_with_a_commit_flag", "implies(g_planned, (g_plan_at_least is not None) == (args.this_commit or args.at_least is not None))", "C05"),
                       C("jobs_passed_through", "implies(g_ran, g_jobs >= 1 and implies(args.jobs is None, g_jobs == 1) and g_stop_early == args.stop_early)", "C04", "C03")],
              raises={"ConductorError+": [C("nothing_ran_without_validation", "implies(g_planned or g_ran, g_closure_ok)", "C14", "C15"),
-                                         C("check_never_plans_or_runs", "implies(args.check, not g_planned and not g_ran)", "C15")]}),
+                                         C("check_never_plans_or_runs", "implies(args.check, not g_planned and not g_ran)", "C15")],
+                     # only the construction of the Context (config / sqlite errors) may fail with a non-Conductor exception: before anything ran
+                     "Exception+": [C("nothing_planned_or_run", "not g_planned and not g_ran", "C14", "C15")]}),
 
     # ------------------------------------------------------------------ the CLI wrapper
     Contract("ext::cli_main", params={"args": "Namespace"}, raises={"ConductorError+": [], "Exception+": []},
